@@ -52,12 +52,40 @@ func sitoa(n int) string {
 // MutInitialState is mut.State() right after its own init.
 const MutInitialState = "0/0/1/1/0"
 
+// MutLibPath is a /p/ package whose state lives in an internal sub-package (the flags of such a
+// package id differ from a plain /p/ package); the public package hands out the only way in.
+const MutLibPath = "gno.land/p/verif/mutlib"
+const MutLibStatePath = "gno.land/p/verif/mutlib/internal/state"
+const MutLibStateSrc = `package state
+
+type T struct{ N int }
+
+var Obj = &T{}
+var Owner = "deployer"
+
+func (t *T) Bump() int { t.N++; return t.N }
+func SetOwner(s string) { Owner = s }
+`
+const MutLibSrc = `package mutlib
+
+import "gno.land/p/verif/mutlib/internal/state"
+
+func Bump() int          { return state.Obj.Bump() }
+func Get() int           { return state.Obj.N }
+func Obj() *state.T      { return state.Obj }
+func SetOwner(s string)  { state.SetOwner(s) }
+func Owner() string      { return state.Owner }
+`
+
 // MutUserPath is a realm that tries to write mut's state in every way the
 // language lets it express.
 const MutUserPath = "gno.land/r/verif/mutuser"
 const MutUserSrc = `package mutuser
 
-import "gno.land/p/verif/mut"
+import (
+	"gno.land/p/verif/mut"
+	"gno.land/p/verif/mutlib"
+)
 
 var Calls int
 var Seen string
@@ -96,6 +124,13 @@ func Poke(cur realm, which int) int {
 		o := mut.Obj
 		o.N++
 		return o.N
+	case 11:
+		return mutlib.Bump()
+	case 12:
+		return mutlib.Obj().Bump()
+	case 13:
+		mutlib.SetOwner("mallory")
+		return len(mutlib.Owner())
 	}
 	return -1
 }
@@ -108,7 +143,7 @@ func Read(cur realm) string {
 `
 
 // NPokes is the number of Poke variants.
-const NPokes = 11
+const NPokes = 14
 
 // RunStmts are statements a MsgRun script executes against the /p/ state.
 var RunStmts = []string{
